@@ -9,6 +9,7 @@ import (
 	"math"
 	"math/big"
 	"math/rand/v2"
+	"slices"
 
 	"github.com/nspcc-dev/neo-go/pkg/encoding/address"
 	"github.com/nspcc-dev/neo-go/pkg/io"
@@ -433,6 +434,11 @@ func (t *Transaction) unmarshalJSONUnchecked(data []byte) (util.Uint256, int, er
 	t.ValidUntilBlock = tx.ValidUntilBlock
 	t.Attributes = tx.Attributes
 	t.Signers = tx.Signers
+	for i := range t.Signers {
+		if slices.Contains(t.Signers[i].AllowedGroups, nil) {
+			return util.Uint256{}, 0, fmt.Errorf("signer %d: null allowed group", i)
+		}
+	}
 	t.Scripts = tx.Scripts
 	t.SystemFee = tx.SystemFee
 	t.NetworkFee = tx.NetworkFee
